@@ -52,6 +52,10 @@ class Heap:
         return Select(s.dn, Val.a(d))
 
 
+BASE_EL = Array("H_el", IntSort(), AV)
+BASE_DV = Array("H_dv", IntSort(), AVV)
+
+
 def initial_heap():
     return Heap({}, Array("H_lo", IntSort(), IntSort()), Array("H_hi", IntSort(), IntSort()),
                 Array("H_el", IntSort(), AV), Array("H_dk", IntSort(), AB), Array("H_dv", IntSort(), AVV),
@@ -83,6 +87,7 @@ class Path:
         s.h = initial_heap()
         s.schemas = []       # (address term, fn(path, j_abs) -> Bool)
         s.done = set()
+        s.dschemas = []      # (dict address term, fn(path, key) -> Bool): facts about every key of a dict
         s.depth = 0
         s.yielded = []       # SVs yielded so far (generator under verification)
         s.ghost = {}         # free-form ghost state (immutable values or copy-on-write lists)
@@ -99,6 +104,7 @@ class Path:
         c.h = s.h.copy()
         c.schemas = list(s.schemas)
         c.done = set(s.done)
+        c.dschemas = list(s.dschemas)
         c.depth = s.depth
         c.yielded = list(s.yielded)
         c.ghost = dict(s.ghost)
@@ -136,7 +142,28 @@ class Path:
         return s.h.copy()
 
     def getf(s, v, name):
+        s.wf_field(v, name)
         return s.h.getf(v, name)
+
+    # well-formedness of the INITIAL heap: whatever a pre-existing object (address >= 0) refers to is pre-existing too.
+    # Instantiated at every read (quantifier-free), never asserted as a forall.
+    def wf_field(s, v, name):
+        a = simplify(Val.a(v))
+        key = ("wf", name, a.get_id())
+        if key in s.done:
+            return
+        s.done.add(key)
+        r = Select(Array(f"F_{name}", IntSort(), Val), a)
+        s.pc.append(Implies(a >= 0, Implies(Val.is_ref(r), Val.a(r) >= 0)))
+
+    def wf_elem(s, v, j):
+        a = simplify(Val.a(v))
+        key = ("wfe", a.get_id(), j.get_id())
+        if key in s.done:
+            return
+        s.done.add(key)
+        r = Select(Select(BASE_EL, a), j)
+        s.pc.append(Implies(a >= 0, Implies(Val.is_ref(r), Val.a(r) >= 0)))
 
     def setf(s, v, name, val):
         s.h.fields[name] = Store(s.h.field(name), Val.a(v), val)
@@ -158,6 +185,7 @@ class Path:
         H = H or s.h
         a = simplify(Val.a(v))
         j = simplify(j) if z3.is_expr(j) else IntVal(j)
+        s.wf_elem(v, j)
         if s.depth < 4:
             for idx, (a2, fn) in enumerate(list(s.schemas)):
                 if a2.eq(a) and (idx, j.get_id()) not in s.done:
@@ -265,14 +293,39 @@ class Path:
         s.pc.append(s.h.alloc >= old)
 
     # dicts
-    def dhas(s, d, k):
-        return s.h.dhas(d, k)
+    def add_dschema(s, d, fn):
+        s.dschemas.append((simplify(Val.a(d)), fn))
 
-    def dget(s, d, k):
-        return s.h.dget(d, k)
+    def dinst(s, d, k):
+        """instantiate the per-key facts of dict d at key k"""
+        a = simplify(Val.a(d))
+        k = simplify(k)
+        if s.depth < 4:
+            for idx, (a2, fn) in enumerate(list(s.dschemas)):
+                if a2.eq(a) and ("d", idx, k.get_id()) not in s.done:
+                    s.done.add(("d", idx, k.get_id()))
+                    s.depth += 1
+                    try:
+                        s.pc.append(fn(s, k))
+                    finally:
+                        s.depth -= 1
 
-    def dlen(s, d):
-        return s.h.dlen(d)
+    def dhas(s, d, k, H=None):
+        s.dinst(d, k)
+        return (H or s.h).dhas(d, k)
+
+    def dget(s, d, k, H=None):
+        s.dinst(d, k)
+        a = simplify(Val.a(d))
+        key = ("wfd", a.get_id(), simplify(k).get_id())
+        if key not in s.done:
+            s.done.add(key)
+            r = Select(Select(BASE_DV, a), k)
+            s.pc.append(Implies(a >= 0, Implies(Val.is_ref(r), Val.a(r) >= 0)))
+        return (H or s.h).dget(d, k)
+
+    def dlen(s, d, H=None):
+        return (H or s.h).dlen(d)
 
     def dset(s, d, k, v):
         a = Val.a(d)
